@@ -8,7 +8,7 @@ theorem ser_kind : ∀ (s : Schema) (v : Val), hasType s v = true → kindOf (se
   | .int _ _, v, h => by cases v <;> simp_all [hasType, ser, shape, kindOf]
   | .flt, v, h => by cases v <;> simp_all [hasType, ser, shape, kindOf]
   | .str, v, h => by cases v <;> simp_all [hasType, ser, shape, kindOf]
-  | .hex _, v, h => by cases v <;> simp_all [hasType, ser, shape, kindOf]
+  | .hex _ _, v, h => by cases v <;> simp_all [hasType, ser, shape, kindOf]
   | .any, v, h => by
       cases v <;> simp_all [hasType, ser, shape]
       rename_i j; cases j <;> simp [kindOf]
@@ -38,7 +38,7 @@ theorem de_kind : ∀ (s : Schema) (j : Json), kindOf j ∉ shape s → de s j =
   | .int _ _, j, h => by cases j <;> simp_all [de, shape, kindOf]
   | .flt, j, h => by cases j <;> simp_all [de, shape, kindOf]
   | .str, j, h => by cases j <;> simp_all [de, shape, kindOf]
-  | .hex _, j, h => by cases j <;> simp_all [de, shape, kindOf]
+  | .hex _ _, j, h => by cases j <;> simp_all [de, shape, kindOf]
   | .any, j, h => by cases j <;> simp_all [de, shape, kindOf]
   | .opt s, j, h => by
       have h2 : kindOf j ∉ shape s := fun hh => h (by simp [shape, hh])
